@@ -258,6 +258,9 @@ impl UnixStr {
         let slf_ptr = self.as_ptr();
         let other_ptr = other.as_ptr();
         let other_len = other.len();
+        if other_len == 0 {
+            return 0;
+        }
         loop {
             unsafe {
                 let a_val = slf_ptr.add(it).read();
